@@ -1,17 +1,29 @@
 #!/bin/bash
-# Run every registered quick check against every kept seeded change; 4 lanes.
+# Run registered quick checks against kept seeded changes.
+#   SEED_GLOB   which changes (default: all, "seeded/C*-r*")
+#   SEED_CHECKS comma list of checks, or "own" = only the check of the property the change was
+#               written against (default: every check)
+#   LANES       parallel lanes (default 2; each check uses 8 workers)
+#   OUT         result directory (default .work/matrix)
 cd "$(dirname "$0")/.."
-mkdir -p .work/matrix
-ls -d seeded/C*-r* | sort > .work/matrix/all.txt
-split -n l/4 -d .work/matrix/all.txt .work/matrix/lane
-for lane in .work/matrix/lane0*; do
-  ( while read d; do python3 tools/seedtest.py "$d" ${SEED_CHECKS:+--checks $SEED_CHECKS} > ".work/matrix/$(basename $d).json" 2>&1; done < "$lane" ) &
+OUT=${OUT:-.work/matrix}
+mkdir -p "$OUT"
+ls -d ${SEED_GLOB:-seeded/C*-r*} | sort > "$OUT/all.txt"
+rm -f "$OUT"/lane*
+split -n l/${LANES:-2} -d "$OUT/all.txt" "$OUT/lane"
+for lane in "$OUT"/lane0*; do
+  ( while read d; do
+      checks=$SEED_CHECKS
+      if [ "$checks" = "own" ]; then checks=$(basename "$d" | cut -c1-3); fi
+      python3 tools/seedtest.py "$d" ${checks:+--checks $checks} > "$OUT/$(basename $d).json" 2>&1
+    done < "$lane" ) &
 done
 wait
-python3 - <<'PY'
-import json, glob, os
+python3 - "$OUT" <<'PY'
+import json, glob, os, sys
+out = sys.argv[1]
 rows = []
-for f in sorted(glob.glob('.work/matrix/C*.json')):
+for f in sorted(glob.glob(out + '/C*.json')):
     name = os.path.basename(f)[:-5]
     try:
         d = json.load(open(f))
